@@ -5,6 +5,8 @@ import warnings
 from collections.abc import Iterator
 from pathlib import Path
 from typing import Any
+from urllib.parse import urlparse
+from urllib.request import url2pathname
 
 import click
 
@@ -156,6 +158,9 @@ def resolve_source(
     if source.find("://") > -1 and not source.startswith("file://"):
         yield source
     else:
+        if source.startswith("file://"):
+            source = url2pathname(urlparse(source).path)
+
         path = Path(source).resolve()
         match = "**/*" if recursive else "*"
         if path.is_dir():
